@@ -351,9 +351,9 @@ class LighthouseGeometrySolver:
         Rodrigues' rotation formula is used.
         """
         theta = np.linalg.norm(rot_vecs, axis=1)[:, np.newaxis]
-        with np.errstate(invalid='ignore'):
+        with np.errstate(invalid='ignore', divide='ignore'):
             v = rot_vecs / theta
-            v = np.nan_to_num(v)
+            v = np.nan_to_num(v, posinf=0.0, neginf=0.0)
         dot = np.sum(points * v, axis=1)[:, np.newaxis]
         cos_theta = np.cos(theta)
         sin_theta = np.sin(theta)
